@@ -248,6 +248,40 @@ class Flow:
         return None
 
 
+def _id_only_keys_a_memo(m, call) -> bool:
+    """`id(x)` used as nothing but a key of a mapping that is local to the enclosing function (or a parameter of it) and is
+    never enumerated there: `d[id(x)]`, `d.get(id(x))`, `d.setdefault(id(x), ...)`, `id(x) in d`."""
+    par = m.parents.get(call)
+    holder = None
+    if isinstance(par, ast.Subscript) and par.slice is call and isinstance(par.value, ast.Name):
+        holder = par.value.id
+    elif isinstance(par, ast.Call) and isinstance(par.func, ast.Attribute) and par.func.attr in ("get", "setdefault", "pop") \
+            and isinstance(par.func.value, ast.Name) and par.args and par.args[0] is call:
+        holder = par.func.value.id
+    elif isinstance(par, ast.Compare) and par.left is call and len(par.ops) == 1 and isinstance(par.ops[0], (ast.In, ast.NotIn)) \
+            and isinstance(par.comparators[0], ast.Name):
+        holder = par.comparators[0].id
+    if holder is None:
+        return False
+    fn = m.enclosing_function(call)
+    if fn is None:
+        return False
+    for n_ in ast.walk(fn):
+        # any enumeration of the holder (iteration, items/keys/values, sorted/list/len-independent copies) lets order or keys out
+        if isinstance(n_, (ast.For, ast.comprehension)) and any(isinstance(x, ast.Name) and x.id == holder for x in ast.walk(n_.iter)):
+            return False
+        if isinstance(n_, ast.Call):
+            dn = dotted(n_.func) or ""
+            if dn in (f"{holder}.items", f"{holder}.keys", f"{holder}.values", f"{holder}.popitem"):
+                return False
+            if dn in ("sorted", "list", "tuple", "set", "min", "max", "next", "iter", "str", "repr", "print") and any(
+                    isinstance(a, ast.Name) and a.id == holder for a in n_.args):
+                return False
+        if isinstance(n_, (ast.Return, ast.Yield)) and isinstance(getattr(n_, "value", None), ast.Name) and n_.value.id == holder:
+            return False
+    return True
+
+
 def run(ctx: Ctx):
     idx = Index(ctx.src, dirs=("generator",))
     ctx.floor("generator modules", len(idx.modules), 20)
@@ -307,7 +341,11 @@ def run(ctx: Ctx):
                         ctx.ok("no-ambient-sources")
             if isinstance(node, ast.Call):
                 d = dotted(node.func) or ""
-                if d in BANNED_CALLS or d.startswith("os.environ") or d.startswith("random.") or d.startswith("datetime."):
+                if d == "id" and _id_only_keys_a_memo(m, node):
+                    # `memo[id(obj)]`: the address only distinguishes objects inside one call; the memo is never
+                    # enumerated, so neither its order nor the addresses can reach the output
+                    ctx.ok("no-ambient-sources", {"construct": f"{rel}:id() as the key of a local memo"})
+                elif d in BANNED_CALLS or d.startswith("os.environ") or d.startswith("random.") or d.startswith("datetime."):
                     ctx.fail("no-ambient-sources", f"{rel}:{d}", f"call of {d} in the generator", rel, node.lineno)
                 if d.startswith("uuid."):
                     # the random value may only become the value of an `id_` field: the call sits inside the definition of an
